@@ -41,10 +41,12 @@ def run(ctx, rep):
     calls = 0
     PR.use(fx)
     comb = {PR.rp(n_) for n_ in PR.COMB}
-    for nm in ("parse_proguard_record", "parse_proguard_header", "parse_proguard_field_or_method", "parse_proguard_class"):
-        b = fx.bodies.get(PR.rp(nm))
-        if b:
+    roots = [PR.rp(nm) for nm in ("parse_proguard_record", "parse_proguard_header", "parse_proguard_field_or_method", "parse_proguard_class")]
+    # the record parsers and every private helper they reach (a `:number` group may live in its own function), combinators excluded
+    for p_ in sorted(fx.reachable([r_ for r_ in roots if r_ in fx.bodies], enter=lambda q: q not in comb)):
+        b = fx.bodies.get(p_)
+        if b and p_ not in comb and b["krate"] == "proguard":
             for n_ in F.walk(b["body"]):
                 if n_.get("k") == "Call" and "fn" in n_ and fx.by_dp.get(n_["fn"].get("dp")) in comb:
                     calls += 1
-    rep.floor("C05.5", calls, 34, "combinator call sites in the dispatcher and the three record parsers")
+    rep.floor("C05.5", calls, 24, "combinator call sites in the dispatcher, the three record parsers and their helpers (34 on the pinned tree; shared helpers lower it)")
